@@ -113,7 +113,50 @@ def check_encode(run, m):
             run.violation('encode-mismatch:%s:%s' % (k, _diffsig(got, want)), case,
                           'encode of %r gave %s, spec says %s' % (_short(m), got.hex(), want.hex()))
         return False
-    return True
+    return check_reassigned(run, m, k, want)
+
+
+_PREV = {}
+# message classes that compute their length fields once, in the constructor (observed on this tree; assigning a longer list to such
+# an object afterwards is not something the class offers - its documentation gives the constructor as the only way in)
+FROZEN_AT_CONSTRUCTION = {'req/16'}
+# kinds whose objects the adapter completes through attributes that are not constructor parameters (status word, paging fields):
+# setting only the constructor parameters does not describe the new message
+NOT_REASSIGNABLE_BY_PARAMETERS = {'rsp/11', 'rsp/43'}
+
+
+def check_reassigned(run, m, k, want):
+    """an application's message object used again: built for the previous message of this kind and encoded, then the attributes
+    that are constructor parameters set to the new values - encode() has to give the spec PDU of the new values"""
+    import copy
+    import inspect
+    prev = _PREV.get(k)
+    _PREV[k] = m
+    if prev is None or prev == m or regions_of(m) or regions_of(prev) or k in NOT_REASSIGNABLE_BY_PARAMETERS:
+        return True
+    try:
+        obj, target = A.build(prev), A.build(m)
+        obj.encode()
+    except Exception:  # noqa
+        return True
+    names = [n for n in inspect.signature(type(obj).__init__).parameters if n not in ('self', 'kwargs') and n in vars(target) and n in vars(obj)]
+    if not names:
+        return True
+    for n in names:
+        setattr(obj, n, copy.deepcopy(getattr(target, n)))
+    run.count('reassigned_encodes')
+    try:
+        got = bytes([obj.function_code]) + obj.encode()
+    except Exception as e:  # noqa
+        got = repr(e).encode()
+    if got == want:
+        return True
+    if k in FROZEN_AT_CONSTRUCTION:
+        run.count('reassigned_frozen_kinds_skipped')
+        return True
+    run.violation('reassigned-encode-mismatch:%s' % k, {'op': 'reassign', 'm': m, 'prev': prev},
+                  'object built for %r, attributes %r then set to those of %r: encode gave %s, spec says %s' % (_short(prev), names, _short(m), got.hex()[:80], want.hex()[:80]))
+    return False
 
 
 def scribble(obj):
@@ -411,9 +454,10 @@ def custom_registration(run):
         new_fc = mk(Base, 0x45)
         new_sub = mk(DiagBase, 8, 0x0042)
         override = mk(Base, 3)
+        override_sub = mk(DiagBase, 8, 0x000B)            # a vendor's own version of a standard sub-function
         case = {'op': 'custom-registration', 'dir': d}
         try:
-            for c in (new_fc, new_sub, override):
+            for c in (new_fc, new_sub, override, override_sub):
                 dec.register(c)
         except Exception as e:  # noqa
             run.violation('register:raised:%s' % d, case, 'register() raised %r' % (e,))
@@ -437,7 +481,7 @@ def custom_registration(run):
                     o = dx.decode(pdu)
                 except Exception as e:  # noqa
                     o = e
-                if type(o) is not cls:
+                if type(o) is not (override_sub if (dx is dec and sub == 0x000B) else cls):
                     probs.append('diagnostic sub-function %#06x decodes to %s on %s' % (sub, type(o).__name__, which))
         try:
             o = dec.decode(bytes([8]) + _st.pack('>HH', 0x0042, 0))
@@ -449,6 +493,12 @@ def custom_registration(run):
         for which, dx in (('created before', before), ('created afterwards', after), ('the shared module-level one', decoder(d))):
             if dx.lookupPduClass(0x45) is new_fc:
                 probs.append('a class registered on one decoder is known to a decoder %s' % which)
+            try:
+                o = dx.decode(bytes([8]) + _st.pack('>HH', 0x0042, 0))
+            except Exception as e:  # noqa
+                o = e
+            if type(o) is new_sub:
+                probs.append('a diagnostic sub-function registered on one decoder is known to a decoder %s' % which)
             for (dd, fc), cls in A.CLASS.items():
                 if dd == d and dx.lookupPduClass(fc) is not cls:
                     probs.append('function code %d on a decoder %s maps to %s' % (fc, which, dx.lookupPduClass(fc).__name__))
@@ -475,6 +525,17 @@ def replay(run, case):
         m['records'] = [tuple(x) if isinstance(x, list) else x for x in m['records']]
     if 'objects' in m:
         m['objects'] = [tuple(x) for x in m['objects']]
+    if case['op'] == 'reassign':
+        prev = case['prev']
+        for mm in (prev,):
+            if 'records' in mm:
+                mm['records'] = [tuple(x) if isinstance(x, list) else x for x in mm['records']]
+            if 'objects' in mm:
+                mm['objects'] = [tuple(x) for x in mm['objects']]
+        _PREV[kind_of(m)] = prev
+        print('encode agrees' if check_encode(run, m) else 'encode differs / not comparable')
+        run.evaluations += 1
+        return
     if case['op'] == 'encode':
         print('encode agrees' if check_encode(run, m) else 'encode differs / not comparable')
     else:
